@@ -71,9 +71,36 @@ def r2_placeholders(rep, facts, rid='C16/R2', rid3='C16/R3'):
             if not ok[d] and any(ok.get(x) for x in deleg[d]):
                 ok[d] = True
                 changed = True
+    evaluated = {}
+
+    def observed(label, d):
+        """len / is_empty evaluated on a container holding a, a placeholder, b — and on one holding only a placeholder (None: cannot be evaluated)"""
+        if label in evaluated:
+            return evaluated[label]
+        res = None
+        if label.split('::')[0] in ('Table', 'InlineTable') and label.split('::')[-1] in ('len', 'is_empty'):
+            try:
+                from .rules_containers import _table_model, fval, I as I_
+                from .places import PlaceInterp, deref as deref_
+                from .den import Evaluator, Unanalysable as _Un, EvalPanic as _Ep
+                ty_ = 'toml_edit::table::Table' if label.startswith('Table::') else 'toml_edit::inline_table::InlineTable'
+                val_ = lambda t: ('ctor', I_ + 'Value', (fval(t),))
+                ghost = ('ctor', I_ + 'None')
+                r1 = deref_(PlaceInterp(Evaluator(facts)).apply_fn(facts.body(d), [_table_model(ty_, [('a', val_('a')), ('ghost', ghost), ('b', val_('b'))])]))
+                r0 = deref_(PlaceInterp(Evaluator(facts)).apply_fn(facts.body(d), [_table_model(ty_, [('ghost', ghost)])]))
+                res = (r1, r0) == ((2, 0) if label.endswith('::len') else (False, True))
+            except (_Un, _Ep, TypeError, KeyError, IndexError, AttributeError, ValueError):
+                res = None
+        evaluated[label] = res
+        return res
     for label, d in sorted(obs.items()):
         b = facts.body(d)
         how = 'filters directly' if direct[d] else ('delegates to ' + ', '.join(sorted(by_def[x] for x in deleg[d] if ok.get(x))))
+        ev_ = observed(label, d)
+        if ev_ is not None:
+            rep.check(R, label, ev_, 'evaluated on a container with a placeholder: the placeholder does not count', f'observer `{label}` evaluated on a container holding `a`, a placeholder and `b` '
+                      f'(and on one holding only a placeholder) counts the placeholder: entries created by mutable indexing (`doc["x"]`) become visible through it', facts.loc(b))
+            continue
         rep.check(R, label, ok[d], how, f'observer `{label}` neither tests for Item::None placeholders nor delegates to an observer that does: '
                   f'entries created by mutable indexing (`doc["x"]`) become visible through it', facts.loc(b))
     # R3: len shares the filter of iter
@@ -83,6 +110,10 @@ def r2_placeholders(rep, facts, rid='C16/R2', rid3='C16/R3'):
             rep.incomplete(R3, label, 'not found')
             continue
         b = facts.body(obs[label])
+        ev_ = observed(label, obs[label])
+        if ev_ is not None:
+            rep.check(R3, label, ev_, 'evaluated: counts the visible entries', f'`{label}` evaluated on a container with a placeholder does not count what iteration yields', facts.loc(b))
+            continue
         calls_iter = any(n.get('k') == 'mcall' and n.get('name') == 'iter' and peel(n['recv']).get('res') == 'Local' for n in walk(b['body']))
         refilter = any(n.get('k') == 'mcall' and n.get('name') in ('filter', 'count') for n in walk(b['body']))
         raw_len = any(n.get('k') == 'mcall' and n.get('name') == 'len' and peel(n['recv']).get('k') == 'field' for n in walk(b['body']))
@@ -91,6 +122,10 @@ def r2_placeholders(rep, facts, rid='C16/R2', rid3='C16/R3'):
     for label in ('Table::is_empty', 'InlineTable::is_empty', 'TableLike(default)::is_empty'):
         if label in obs:
             b = facts.body(obs[label])
+            ev_ = observed(label, obs[label])
+            if ev_ is not None:
+                rep.check(R3, label, ev_, 'evaluated: empty exactly when nothing is visible', f'`{label}` evaluated on a container with a placeholder disagrees with iteration', facts.loc(b))
+                continue
             viaf = any(n.get('k') == 'mcall' and n.get('name') in ('len', 'iter') and peel(n['recv']).get('res') == 'Local' for n in walk(b['body']))
             rep.check(R3, label, viaf, 'via len()/iter()', f'`{label}` does not go through len()/iter()', facts.loc(b))
 
